@@ -200,6 +200,9 @@ impl<T: Copy> MemoV<T> {
     #[inline(always)]
     pub fn get(&mut self, key: [u64; 8], fresh: T) -> T {
         let i = self.calls;
+        #[cfg(kani)]
+        kani::assert(i < 8, "uf memo table overflow");
+        #[cfg(not(kani))]
         assert!(i < 8, "uf memo table overflow");
         let mut v = fresh;
         macro_rules! probe {
@@ -304,6 +307,9 @@ impl<T: Copy, const S: usize> MemoK<T, S> {
     #[inline(always)]
     pub fn get(&mut self, key: [u64; 36], fresh: T) -> T {
         let i = self.calls;
+        #[cfg(kani)]
+        kani::assert(i < S, "uf memo table overflow");
+        #[cfg(not(kani))]
         assert!(i < S, "uf memo table overflow");
         let mut v = fresh;
         let mut j = S;
